@@ -516,7 +516,7 @@ def gen_unmarshal_harnesses(prefix, kind, info, syntax):
         L.append('\tverifAssume(v > 0)\n\tverifAssume(v < 64) // value sizes are not this property\'s subject')
     L.append('\tknown := pbBuf()')
     L.append('\t' + keyed("known", num, "v"))
-    L.append('\tu1, u2 := pbUnknown(1), pbUnknown(2)')
+    L.append('\tu1, u2 := pbUnknown(1, %s), pbUnknown(2)' % ", ".join(str(n) for _, n in info["fields"]))
     L.append('\tin := make([]byte, 0, 256)')
     L.append('\tin = append(in, u1...)\n\tin = append(in, known...)\n\tin = append(in, u2...)')
     L.append(f'\tm := &{msg}{{}}')
